@@ -9,10 +9,11 @@
   * A macro that panics keeps whatever the calls before the panic did to the filesystem.
   * `MOut.panic name msg`: `name` is the first argument of `panic_msg!` / `panic_compare_msg!`,
     `msg` the second (`none` for the `panic!("name: {}", e.to_string())` forms).
-  * The code is reproduced as it is (wrong macro name in one branch of `assert_vfs_is_symlink!`,
-    `assert_vfs_write_all!` not writing when the path exists, `has_suffix` in
-    `assert_vfs_readlink_abs!`, `assert_vfs_no_dir!` / `assert_vfs_no_file!` panicking on every
-    existing path, ...).
+  * The code is reproduced as it is (`assert_vfs_no_dir!` / `assert_vfs_no_file!` panicking on every
+    existing path, the double resolution of path arguments, ...). Repaired upstream in this tree and
+    transcribed in the repaired form: the macro name in `assert_vfs_is_symlink!` (d5c137e),
+    `assert_vfs_write_all!` on an existing file (2f59893), equality instead of `has_suffix` in
+    `assert_vfs_readlink_abs!` (777ae76).
 -/
 import Rivia.Model.MemfsOps
 
@@ -130,8 +131,7 @@ def runMacro (env : Env) (s : State) : MacroCall → MOut × State
     boolK env s (.exists (renderP t)) fun ex s =>
     if ex then
       boolK env s (.isSymlink (renderP t)) fun isl s =>
-      -- sic: the message of this branch names `assert_vfs_is_link!`
-      if !isl then (pm "assert_vfs_is_link!" "exists but is not a symlink", s) else (.pass, s)
+      if !isl then (pm "assert_vfs_is_symlink!" "exists but is not a symlink", s) else (.pass, s)
     else (pm "assert_vfs_is_symlink!" "symlink doesn't exist", s)
   | .noSymlink p =>
     absK env s p "assert_vfs_no_symlink!" "failed to get absolute path" fun t s =>
@@ -167,8 +167,7 @@ def runMacro (env : Env) (s : State) : MacroCall → MOut × State
     call env s (.readlinkAbs (renderP l)) fun r s =>
     match r with
     | some (.path x) =>
-      -- sic: `!target.has_suffix(&x)`
-      if !(hasSuffix (renderP target) (renderP x)) then
+      if x ≠ target then
         (pm "assert_vfs_readlink_abs!" "link target doesn't equal given path", s)
       else (.pass, s)
     | _ => (pm "assert_vfs_readlink_abs!" "failed while reading link", s)
@@ -211,18 +210,19 @@ def runMacro (env : Env) (s : State) : MacroCall → MOut × State
       | _ => (pm "assert_vfs_mkfile!" "failed while creating file", s)
   | .writeAll p data =>
     absK env s p "assert_vfs_write_all!" "failed to get absolute path" fun t s =>
-    boolK env s (.exists (renderP t)) fun ex s =>
-    if ex then
-      -- sic: nothing is written when the path exists
-      boolK env s (.isFile (renderP t)) fun isf s =>
-      if !isf then (pm "assert_vfs_write_all!" "is not a file", s) else (.pass, s)
-    else
+    -- `if exists(&target) && !is_file(&target) { panic }`, then the write in every other case
+    let write := fun (s : State) =>
       call env s (.writeAll (renderP t) data) fun r s =>
       match r with
       | some _ =>
         boolK env s (.isFile (renderP t)) fun isf s =>
         if !isf then (pm "assert_vfs_write_all!" "is not a file", s) else (.pass, s)
       | none => (pm "assert_vfs_write_all!" "failed while writing file", s)
+    boolK env s (.exists (renderP t)) fun ex s =>
+    if ex then
+      boolK env s (.isFile (renderP t)) fun isf s =>
+      if !isf then (pm "assert_vfs_write_all!" "is not a file", s) else write s
+    else write s
   | .copyfile src dst =>
     absK env s src "assert_vfs_copyfile!" "failed to get absolute src path" fun a s =>
     absK env s dst "assert_vfs_copyfile!" "failed to get absolute dst path" fun b s =>
@@ -304,3 +304,4 @@ def showMOut : MOut → String
   | .panic name none => "panic|" ++ name ++ "|ERR"
 
 end Rivia.Macros
+
